@@ -30,7 +30,12 @@ DOWNSTREAM = ['none', 'running_sum', 'distinct', 'lag', 'count']
 
 def g_err(e):
     """the error.map mapper: turns the exception into an item"""
-    return 1000 + (e.item if isinstance(e.item, int) else e.item[1])
+    k = e.item if isinstance(e.item, int) else e.item[1]
+    if k % 5 == 3:
+        return None             # None is a legitimate replacement item, not "nothing to emit"
+    if k % 5 == 4:
+        return 0                # ... and so is a falsy one
+    return 1000 + k
 
 
 def item_id(x):
@@ -94,13 +99,14 @@ def fail_op(kind, F, mode):
 def downstream(kind, listy=False):
     if listy:
         # the failing operator emits lists (scan_list): reduce them to ints first
-        return [rs.ops.map(lambda v: v if isinstance(v, int) else sum(v) + 31 * len(v))] + downstream(kind)
+        return [rs.ops.map(lambda v: v if (v is None or isinstance(v, int)) else sum(v) + 31 * len(v))] + downstream(kind)
+    nn = lambda x: -1 if x is None else x                      # noqa: E731  (error.map may put None on the item path)
     if kind == 'running_sum':
-        return [rs.ops.scan(lambda a, x: a + x, 0)]
+        return [rs.ops.scan(lambda a, x: a + nn(x), 0)]
     if kind == 'distinct':
-        return [rs.ops.map(lambda x: x % 5), rs.ops.distinct()]
+        return [rs.ops.map(lambda x: nn(x) % 5), rs.ops.distinct()]
     if kind == 'lag':
-        return [rs.data.lag(1), rs.ops.map(lambda t: t[0] * 100 + t[1])]
+        return [rs.data.lag(1), rs.ops.map(lambda t: nn(t[0]) * 100 + nn(t[1]))]
     if kind == 'count':
         return [rs.ops.count()]
     return []
